@@ -78,6 +78,7 @@ type RunHarness struct {
 	wg   sync.WaitGroup
 	t0   time.Time
 	Errs map[string]error
+	armOnWrite map[string]armedFault
 	// OnEvent, when set, is called (outside all locks) after every hook event with its index
 	OnEvent func(n int, fanId, event string)
 	nev     int
@@ -250,6 +251,22 @@ func (h *RunHarness) WriteFault(name string, n int) {
 	h.mu.Unlock()
 }
 
+// ReadFaultOnWrite: from the next write of at least minVal to register wname on, the next n reads of register rname fail.
+func (h *RunHarness) ReadFaultOnWrite(rname string, n int, wname string, minVal int) {
+	h.mu.Lock()
+	if h.armOnWrite == nil {
+		h.armOnWrite = map[string]armedFault{}
+	}
+	h.armOnWrite[wname] = armedFault{rname, n, minVal}
+	h.mu.Unlock()
+}
+
+type armedFault struct {
+	rname  string
+	n      int
+	minVal int
+}
+
 func (h *RunHarness) onRead(e *Env, name string) (int, error, bool) {
 	h.mu.Lock()
 	n := h.rfault[name]
@@ -275,6 +292,15 @@ func (h *RunHarness) onWrite(e *Env, name string, val int) (error, bool, bool) {
 		h.lastW = map[string]time.Time{}
 	}
 	h.lastW[name] = time.Now()
+	if af, ok := h.armOnWrite[name]; ok && val >= af.minVal {
+		delete(h.armOnWrite, name)
+		if h.rfault == nil {
+			h.rfault = map[string]int{}
+			h.rskip = map[string]int{}
+		}
+		h.rfault[af.rname] = af.n
+		h.rskip[af.rname] = 0
+	}
 	var st *runFanState
 	kind := ""
 	for _, s := range h.fs {
